@@ -25,7 +25,8 @@ ASSUMPTIONS = ['bad facts are read from the trace (which hooks raised, which '
                'harness counts as a bad fact']
 FLOORS = {'iteration_dependent_plans': 15, 'verdicts_judged': 600, 'good_controls': 40, 'bad_plans': 250,
           'noise_pairs': 150, 'child_fault_cases': 100, 'mode_sets': 150,
-          'cli_status_checked': 30}
+          'cli_status_checked': 30, 'import_fails_in_children_only': 25,
+          'import_fails_in_children_layer_lost': 10}
 BATCH_TIMEOUT = 600
 
 NOISE_LINES = ['0 0 0\n', '3 1 1\n', ' 12 0 0 \r\n', '5 0\n', '1 2 3 4\n',
@@ -430,6 +431,49 @@ def run_case(case):
                 V('child-death-not-failed', 'verdict-child-death',
                   plan=plan, out=w.out[-700:])
             C('verdicts_judged')
+        # ---- a test module that can be imported where the run starts
+        # but not in the layer subprocesses (it is the only module with
+        # tests of its layer, so that subprocess finds nothing to run)
+        owners = {}
+        for tid, (ts, L) in tests.items():
+            if L is not None:
+                owners.setdefault(L, set()).add(tid.rsplit('.', 2)[0])
+        for m, node, L, lvl in vworld.iter_units(spec):
+            if L not in (None, 'UNIT'):
+                owners.setdefault(L, set()).add(m['name'])
+        cands = sorted((L, mn, len(ms) == 1) for L, ms in owners.items()
+                       for mn in ms
+                       if any(t.startswith(mn + '.') for t in tids))
+        if cands:
+            # (when other modules have tests on the layer too, the
+            # subprocess still finds its layer and simply has fewer tests)
+            solo_c = [c for c in cands if c[2]]
+            L, mname, solo = rng.choice(
+                solo_c if solo_c and rng.random() < 0.6 else cands)
+            plan = dict(base_plan)
+            plan['modules'] = {mname: {
+                'what': 'raise', 'child_only': True,
+                'exc': rng.choice(['ImportError', 'ModuleNotFoundError',
+                                   'OSError'])}}
+            w, p, o = one(plan, rng.choice(['j2', 'jk1']))
+            T = truth.compute(w.events, spec, p, o)
+            if w.raised is not None:
+                V('run-aborted', 'run-raised', plan=plan,
+                  tb=(w.raised_tb or '')[-700:])
+            elif T.import_failures_in_children:
+                C('import_fails_in_children_only')
+                C('import_fails_in_children_layer_lost' if solo else
+                  'import_fails_in_children_layer_still_found')
+                C('verdicts_judged')
+                if w.verdict is not True:
+                    V('verdict-differs-from-facts',
+                      'verdict-false-pass-child-import-layer-lost' if solo
+                      else 'verdict-child-import-failure-tests-dropped',
+                      plan=plan, opts=o,
+                      verdict=w.verdict, layer=L, only_module_of_layer=solo,
+                      bad_facts={'import_in_children':
+                                 T.import_failures_in_children},
+                      out=w.out[-700:])
         # spawn failure
         # (the n-th Popen only, or - persistently - every attempt to start
         # a child for the n-th layer)
